@@ -52,7 +52,7 @@ package searcher
 
 // ---- updateMatches: pop the entries at the least id into matching / matchingCurrs ----
 //@ func DisjunctionHeapSearcher.updateMatches
-//@   props C08
+//@   props C08 C02
 //@   mode int
 //@   requires s != nil && dhsShape(s)
 //@   modifies s.matching, s.matchingCurrs, s.matchingIdxs, s.matching[*], s.matchingCurrs[*], s.matchingIdxs[*], DisjunctionHeapSearcher.heap, s.heap[*]
@@ -81,7 +81,7 @@ package searcher
 //@   ensures implies(result1 == nil, s.initialized && dhsInv(s))
 
 //@ func DisjunctionHeapSearcher.Advance
-//@   props C08
+//@   props C08 C02
 //@   mode int
 //@   requires s != nil && ctx != nil && ctx.DocumentMatchPool != nil && implies(s.initialized, dhsInv(s))
 //@   modifies fields(DisjunctionHeapSearcher), fields(SearcherCurr), mem(*SearcherCurr), mem(*search.DocumentMatch), mem(int), fields(search.DocumentMatch), search.DocumentMatch.holder, search.Searcher.started, search.Searcher.last, search.Searcher.done, search.DocumentMatchPool.avail
